@@ -154,13 +154,17 @@ CHECKS = {
         note='Trusted: the generators and the canonical comparison of resolved schemas. F26 is a known finding.',
         technique='Go-vs-Go round-trip exploration over generated schemas (Coq reference-resolution model pending)'),
     'C18': dict(
-        level='exploration', design='§6 C18',
-        text='No Coq theorem yet (scanner model under construction). Direct oracle: cedar.NewDecoder over scripted readers (1..7-byte chunks, 1023/1024/1025, '
-             'zero-length reads, data with EOF, failure at 10+ byte positions) vs NewPolicyListFromBytes: same policies incl. positions or same error; '
-             'reader failure => error; positions = generator-computed byte offset / line / column in characters; documents with tokens, runes, comments '
-             'and 1.6 kB strings across the 1024-byte buffer boundaries.',
-        note='Trusted: the scripted reader and position bookkeeping of the generator.',
-        technique='schedule exploration of the streaming decoder against the whole-slice parser (Coq scanner refinement pending)'),
+        level='proof', design='§6 C18',
+        text='Model of the scanner (buffered rune reader with refill, sentinel, partial-rune handling, tokBuf spill, line/column bookkeeping) over a '
+             'scripted io.Reader (Impl/Scanner.v) and of nextToken (Impl/Tokenizer.v); specification = the same tokenizer over a reader-free cursor on '
+             'the whole byte string (Lang/Cursor.v). Theorems (Properties/C18.v): for every read schedule and buffer size >= 4 the token list (or the '
+             'failure) equals the specification\'s, hence chunking invariance; termination for every reader; token text = source bytes at the offset; '
+             'line/column = position_of; a reader that fails before the end yields the error (for byte-valued input). Correspondence: Go tokenizer '
+             '(hook VerifTokenize) = model with bufLen 1024 = spec on documents up to 3 kB x schedules incl. failures. Direct oracle: cedar.NewDecoder '
+             'over scripted readers vs NewPolicyListFromBytes incl. policy positions.',
+        note=TB + 'Modelled, not verified: unicode/utf8 DecodeRune/FullRune (Base/Utf8.v, exercised by the correspondence), the parser above the token '
+                  'list (deterministic function of the tokens; the Decoder tokenizes the whole reader first), the reader contract (a failing step keeps failing).',
+        technique='Coq refinement proof (buffered scanner on every read schedule = reader-free cursor) + differential token correspondence + stream-vs-slice oracle'),
     'C19': dict(
         level='exploration', design='§6 C19',
         text='Data races are a property of the Go memory model and cannot be exhibited by a Gallina model; explored under the race detector: N goroutines '
